@@ -107,13 +107,10 @@ func (r *Rule) String() string {
 
 // NullableVisit recursively determines whether an object is nullable.
 func (r *Rule) NullableVisit(rules map[string]*Rule) bool {
-	if r.Visited {
-		// A left-recursive rule is considered non-nullable.
-		return false
-	}
-	r.Visited = true
+	// The flags of the rules referred to are read, not computed (see
+	// RuleRefExpr.NullableVisit): the caller iterates until nothing changes.
+	// A left-recursive rule is considered non-nullable until then.
 	r.Nullable = r.Expr.NullableVisit(rules)
-	r.Visited = false
 	return r.Nullable
 }
 
@@ -664,7 +661,9 @@ func (r *RuleRefExpr) NullableVisit(rules map[string]*Rule) bool {
 		r.Nullable = false
 		return false
 	}
-	r.Nullable = item.NullableVisit(rules)
+	// The flag computed so far. Visiting the rule from every reference to it
+	// takes exponential time when each rule of a chain refers twice to the next.
+	r.Nullable = item.Nullable
 	return r.Nullable
 }
 
